@@ -125,7 +125,7 @@ def make_kind(rng: Rng, kty: str, crv=None, params=None, bits=None, avoid=None) 
     raise ValueError(kty)
 
 
-def key_for_jws(rng: Rng, alg: str, params=None, avoid=None) -> RKey:
+def key_for_jws(rng: Rng, alg: str, params=None, avoid=None, big: bool = False) -> RKey:
     kty, crv = JWS_ALG_KEY[alg]
     if alg == "EdDSA":
         crv = rng.pick(["Ed25519", "Ed448"])
@@ -134,7 +134,8 @@ def key_for_jws(rng: Rng, alg: str, params=None, avoid=None) -> RKey:
     if kty == "RSA":
         # moduli whose bit length is not a multiple of 8 (and of 64) exist in the field: signatures are as long as the modulus in octets
         # ... and large ones: an RSA-8192 signature is 1024 octets, 1366 characters on the wire
-        return make_rsa(rng, 8192 if rng.chance(0.04) else rng.pick([2048, 2048, 2048, 2047, 2040]), params, avoid)
+        # (only where asked for: importing its private half into the library costs seconds of key checks)
+        return make_rsa(rng, 8192 if big and rng.chance(0.06) else rng.pick([2048, 2048, 2048, 2047, 2040]), params, avoid)
     return make_kind(rng, kty, crv, params, avoid=avoid)
 
 
